@@ -9,6 +9,7 @@ import (
 	"lunar/engine/services/diagnoses"
 	sharedActions "lunar/shared-model/actions"
 	sharedConfig "lunar/shared-model/config"
+	"lunar/toolkit-core/verifhook"
 
 	"github.com/rs/zerolog/log"
 )
@@ -51,6 +52,7 @@ func runOnRequest(
 				action.ReqRunResult(),
 			)
 		}
+		verifhook.Point("runner.req_action", action)
 		action.EnsureRequestIsUpdated(&args)
 		prioritizedAction = prioritizedAction.ReqPrioritize(action)
 	}
@@ -83,6 +85,7 @@ func runOnResponse(
 			)
 		}
 
+		verifhook.Point("runner.resp_action", action)
 		action.EnsureResponseIsUpdated(&args)
 		prioritizedAction = prioritizedAction.RespPrioritize(action)
 	}
